@@ -41,7 +41,7 @@ def printer(num_rows=10, last_rows=None, fields=None, resources=None,
     def func(rows):
         spec = rows.res
 
-        if not ResourceMatcher(resources, spec.descriptor).match(spec.name):
+        if not ResourceMatcher(resources, spec.package or spec.descriptor).match(spec.name):
             yield from rows
             return
 
